@@ -461,9 +461,11 @@ func (interp *Interpreter) cfg(root *node, sc *scope, importPath, pkgName string
 					return false
 				}
 				switch c.kind {
-				case binaryExpr, unaryExpr, compositeLitExpr:
+				case binaryExpr, unaryExpr, compositeLitExpr, sliceExpr:
 					// Do not attempt to propagate composite type to operator expressions,
-					// it breaks constant folding.
+					// it breaks constant folding. The type of a slice expression is computed
+					// from the type of its operand, not known yet (as in (*p)[i:j], where *p
+					// would be taken for a pointer type).
 				case keyValueExpr, typeAssertExpr, indexExpr:
 					c.typ = n.typ
 				default:
